@@ -156,11 +156,23 @@ func Eval(e Expr, env map[string]Lang, n int) Lang {
 func (s *Spec) Languages(n int) map[string]Lang {
 	env := map[string]Lang{}
 	var rules []*Rule
+	addRule := func(r *Rule) {
+		rules = append(rules, r)
+		if env[r.LHS] == nil {
+			env[r.LHS] = Lang{}
+		}
+	}
 	for _, d := range s.Decls {
-		if r, ok := d.(*Rule); ok {
-			rules = append(rules, r)
-			if env[r.LHS] == nil {
-				env[r.LHS] = Lang{}
+		switch v := d.(type) {
+		case *Rule:
+			addRule(v)
+		case *Directive:
+			// A rule written as a precedence handle is an occurrence of that rule: its alternatives are
+			// productions of the grammar (C12: "each such production is one of the grammar's own productions").
+			for _, h := range v.Handles {
+				if h.Rule != nil {
+					addRule(h.Rule)
+				}
 			}
 		}
 	}
